@@ -143,3 +143,9 @@ package xpush
 //@   ensures result.Self == 80 && result.Peer == 81 && result.SelfName == "push" && result.PeerName == "pull"
 //@
 // ---- end generated Info contracts ----
+
+// ---- RemovePipe: the pipe leaves the map and its close channel is closed (round 7b) ----
+//@ func (*socket).RemovePipe
+//@   before call:delete#1 assert arg0 == s.pipes && held(s.Mutex)
+//@   before call:close#1 assert arg0 == p.closeQ
+//@   ensures called("delete")
